@@ -242,3 +242,164 @@ Proof. repeat split; vm_compute; reflexivity. Qed.
 Example C10_nonvacuous_depth1 : group (tree_of_stump 0 (1 # 2) [1] [2]) ex_sample = Some 1%Z /\
   src_c10_tree_terminal_fit 60 3 0 1 = true /\ src_c10_tree_terminal_fit 60 3 0 2 = false.
 Proof. repeat split; vm_compute; reflexivity. Qed.
+
+(* ======================================================================================================================================== *)
+(* Extension: general top-k for the k-best table, the k-split table, decision trees of any depth, AIC / AICc / BIC                          *)
+(* (model: C10_Ext_Defs, proofs: C10_Ext, C10_ExtCrit)                                                                                      *)
+(* ======================================================================================================================================== *)
+From Coq Require Import Sorted Reals Lia Lra.
+From LN Require Import C10_Ext_Defs C10_Ext C10_ExtCrit.
+
+(* ---- k-best table, every k --------------------------------------------------------------------------------------------------------- *)
+(* the statement left open above: the k-th partial sum of the gain sweep is a lower bound of the RSS of EVERY table supported on at most
+   k + 1 label sets (exchange argument over the sorted gains) ... *)
+Theorem C10_kbest_topk : C10_kbest_topk_full_statement.
+Proof. exact kbest_topk. Qed.
+Print Assumptions C10_kbest_topk.
+(* ... and it is attained by the table score_kbest stores: the bin means on the first k + 1 label sets of the sorted (delta, bin) pairs
+   (duplicate-free, all of them seen label sets), zero elsewhere *)
+Theorem C10_kbest_topk_attained : forall no (c : col Z) (k : nat) x, (0 < no)%nat -> nth_error (kbest_rss_seq no (-1) c) k = Some x ->
+  x == rss_of no (kbest_pred no c (S k)) c /\ NoDup (kbest_hashes no c (S k)) /\ length (kbest_hashes no c (S k)) = S k /\
+  incl (kbest_hashes no c (S k)) (keys_of (present c)) /\
+  (forall key, ~ In key (kbest_hashes no c (S k)) -> kbest_pred no c (S k) key = []).
+Proof. exact kbest_attained. Qed.
+Print Assumptions C10_kbest_topk_attained.
+(* the stored order is std::sort's order on the (delta, bin) pairs: larger gain first, equal gains by increasing hash; the deltas alone are
+   the sorted deltas the RSS sequence sums *)
+Theorem C10_kbest_order : forall no (c : col Z),
+  StronglySorted lexlt (kbest_sorted no c) /\
+  map fst (kbest_sorted no c) = isort (fun d : Q => d) (deltas_of no (present c)) /\
+  Permutation (keys_of (present c)) (map snd (kbest_sorted no c)).
+Proof. exact (fun no c => conj (kbest_sorted_lex no c) (conj (kbest_sorted_fst no c) (kbest_sorted_snd no c))). Qed.
+Print Assumptions C10_kbest_order.
+
+(* ---- k-split table ---------------------------------------------------------------------------------------------------------------------- *)
+(* accumulator_t::cluster() is a greedy agglomerative clustering (closest pair of mean outputs), NOT a contiguous split of the labels
+   sorted by mean. Every trial: one valid group id per label set, positive counts; RSS at least the dense RSS; the first trial is the
+   dense table *)
+Theorem C10_ksplit_trials : forall no (c : col Z), (0 < no)%nat ->
+  (forall x, In x (ksplit_rss_seq no c) -> dense_rss no c <= x) /\
+  (keys_of (present c) <> [] -> exists x, In x (ksplit_rss_seq no c) /\ x == dense_rss no c) /\
+  (keys_of (present c) = [] -> ksplit_rss_seq no c = []) /\
+  (forall t, In t (ksplit_trials no c) -> length (snd t) = length (keys_of (present c)) /\
+                                            Forall (fun id => (id < length (fst t))%nat) (snd t) /\ Forall (fun cl => 0 < c_x0 cl) (fst t)).
+Proof. exact ksplit_seq_spec. Qed.
+Print Assumptions C10_ksplit_trials.
+(* RSS criterion: the k-split fit is the minimum over all features with a present value and ALL tables *)
+Theorem C10_ksplit_optimal : forall no floor (cs : list (col Z)), (0 < no)%nat ->
+  match ksplit_fit no floor cs with
+  | Some s => (exists c T, In c cs /\ keys_of (present c) <> [] /\ s == clamp floor (rss_of no T c)) /\
+              (forall c T, In c cs -> keys_of (present c) <> [] -> s <= clamp floor (rss_of no T c))
+  | None => forall c, In c cs -> keys_of (present c) = []
+  end.
+Proof. exact ksplit_fit_optimal. Qed.
+Print Assumptions C10_ksplit_optimal.
+(* one merge step: one cluster less, ids in range, the RSS does not decrease (u^2/x + v^2/y >= (u+v)^2/(x+y)) *)
+Theorem C10_ksplit_merge_step : forall no st, kinv st -> (2 <= length (fst st))%nat ->
+  kinv (merge_step no st) /\ length (fst (merge_step no st)) = pred (length (fst st)) /\
+  length (snd (merge_step no st)) = length (snd st) /\
+  forall miss, kstate_rss no miss st <= kstate_rss no miss (merge_step no st).
+Proof. exact merge_step_spec. Qed.
+Print Assumptions C10_ksplit_merge_step.
+(* for a FIXED number of groups the source's grouping is not RSS-optimal (so no Fisher-type exhaustiveness holds): witness *)
+Theorem C10_ksplit_fixed_k_refuted :
+  exists (c : col Z) (T : Z -> list Q) x, nth_error (ksplit_rss_seq 1 c) 1 = Some x /\
+    (forall k1 k2, In k1 [2%Z; 3%Z] -> In k2 [2%Z; 3%Z] -> T k1 = T k2) /\ rss_of 1 T c < x.
+Proof. exact ksplit_fixed_k_refuted. Qed.
+Print Assumptions C10_ksplit_fixed_k_refuted.
+
+(* ---- decision trees of any depth ------------------------------------------------------------------------------------------------------- *)
+(* in a well-formed node table (the check [tree_wf] is run on every fitted tree) every sample has exactly one outcome: dropped at the
+   first pair on its path whose feature it misses (no group, outputs untouched) or exactly one leaf, whose index split() reports, in range,
+   and whose table predict() adds *)
+Theorem C10_tree_walk : forall no nodes tables s, tree_wf nodes (Z.of_nat (length tables)) = true ->
+  walk nodes s 0 (group (WTree nodes tables) s) /\
+  (forall r, walk nodes s 0 r -> r = group (WTree nodes tables) s) /\
+  match group (WTree nodes tables) s with
+  | Some g => (0 <= g < Z.of_nat (length tables))%Z /\ incr no (WTree nodes tables) s = Some (znth g tables []) /\
+              forall out, predict no (WTree nodes tables) s out = tab no (fun o => rget o out + rget o (znth g tables []))
+  | None => forall out, predict no (WTree nodes tables) s out = out
+  end.
+Proof. exact tree_walk_total. Qed.
+Print Assumptions C10_tree_walk.
+(* a tree is the stump of its root composed with the sub-trees on the two sides; depth 1 is the terminal case *)
+Theorem C10_tree_compose : forall nodes tables s, tree_wf nodes (Z.of_nat (length tables)) = true ->
+  let root := znth 0%Z nodes node0 in
+  group (WTree nodes tables) s =
+  match group (WStump (n_feature root) (n_thr root) [] []) s with
+  | None => None
+  | Some g => if src_c10_tree_terminal (n_next root) then Some (src_c10_tree_leaf (n_table root) g)
+              else walk_from nodes (n_next (znth (src_c10_tree_child 0 g) nodes node0)) s
+  end.
+Proof. exact tree_compose. Qed.
+Print Assumptions C10_tree_compose.
+(* the walk from any pair of a well-formed table ends within the table (the fuel of the model is never exhausted), at a valid leaf *)
+Theorem C10_tree_subwalk : forall nodes nt s, tree_wf nodes nt = true ->
+  forall fuel p, (0 <= p)%Z -> Z.even p = true -> (p + 1 < nlen nodes)%Z -> (nlen nodes - p <= Z.of_nat fuel)%Z ->
+    walk nodes s p (tree_group fuel nodes p s) /\ (forall g, tree_group fuel nodes p s = Some g -> (0 <= g < nt)%Z).
+Proof. exact tree_walk_fuel. Qed.
+Print Assumptions C10_tree_subwalk.
+(* the side of a value at a node, as the source writes it *)
+Theorem C10_tree_side : forall v t, src_c10_stump_side v t = if (v <? t)%Z then 0%Z else 1%Z.
+Proof. exact stump_side_shape. Qed.
+Print Assumptions C10_tree_side.
+
+(* ---- selection criteria ------------------------------------------------------------------------------------------------------------------ *)
+(* the translated AIC / AICc / BIC expressions and the k, n arguments of every learner have the shape the real-valued model evaluates *)
+Theorem C10_criterion_shape :
+  (forall dk dn lr ln_, IZR (src_c10_aic dk dn lr ln_) = aic_poly (IZR dk) (IZR dn) (IZR lr) (IZR ln_)) /\
+  (forall dk dn lr ln_, IZR (src_c10_bic dk dn lr ln_) = bic_poly (IZR dk) (IZR dn) (IZR lr) (IZR ln_)) /\
+  (forall aic dk dn, src_c10_aicc aic dk dn = (aic + Z.quot (2 * (dk * dk + dk)) (dn - dk - 1))%Z).
+Proof. exact (conj aic_shape (conj bic_shape aicc_shape)). Qed.
+Print Assumptions C10_criterion_shape.
+Theorem C10_criterion_args :
+  (forall t, src_c10_k_stump t = 2 * t + 1)%Z /\ (forall t, src_c10_k_hinge t = t + 1)%Z /\ (forall t, src_c10_k_affine t = 2 * t)%Z /\
+  (forall b t, src_c10_k_dense b t = b * t)%Z /\ (forall b t, src_c10_k_kbest b t = b * t)%Z /\ (forall b t, src_c10_k_ksplit b t = b * t)%Z /\
+  (forall b ic, src_c10_ksplit_groups b ic = b - ic)%Z /\
+  (forall x m, src_c10_n_stump x m = x + m)%Z /\
+  (forall xn xp m, src_c10_n_hinge_left xn xp m = xn + m)%Z /\ (forall xn xp m, src_c10_n_hinge_right xn xp m = xp + m)%Z.
+Proof. exact crit_args_shape. Qed.
+Print Assumptions C10_criterion_args.
+(* for fixed k and n every criterion is increasing in the RSS, strictly, also through the clamp of make_score: among candidates with the
+   same number of parameters the minimiser of the criterion is the RSS minimiser *)
+Theorem C10_criterion_monotone : forall c k n, (0 < n)%Z ->
+  (forall r1 r2, (0 < r1)%R -> (r1 <= r2)%R -> (crit_score c r1 k n <= crit_score c r2 k n)%R) /\
+  (forall r1 r2, (0 < r1)%R -> (r1 < r2)%R -> (crit_score c r1 k n < crit_score c r2 k n)%R) /\
+  (forall floor r1 r2, (0 < floor)%R -> (r1 <= r2)%R -> (make_score c floor r1 k n <= make_score c floor r2 k n)%R) /\
+  (forall floor (l : list R) r, (0 < floor)%R -> In r l -> (forall x, In x l -> (r <= x)%R) ->
+     forall x, In x l -> (make_score c floor r k n <= make_score c floor x k n)%R).
+Proof.
+  exact (fun c k n Hn => conj (fun r1 r2 => crit_mono c k n r1 r2 Hn) (conj (fun r1 r2 => crit_strict c k n r1 r2 Hn)
+          (conj (fun floor r1 r2 => make_score_mono c floor k n r1 r2 Hn) (fun floor l r => make_score_argmin c floor k n l r Hn)))).
+Qed.
+Print Assumptions C10_criterion_monotone.
+(* across different numbers of parameters the AICc correction is not monotone: it is negative as soon as k > n - 1 *)
+Theorem C10_aicc_correction_negative : exists k n : Z, (0 < k)%Z /\ (0 < n)%Z /\ (aicc_poly 0 (IZR k) (IZR n) < 0)%R.
+Proof. exact aicc_correction_negative. Qed.
+Print Assumptions C10_aicc_correction_negative.
+
+(* ---- non-vacuity of the extension ----------------------------------------------------------------------------------------------------- *)
+Example C10_nonvacuous_topk : (0 < 2)%nat /\ (exists x, nth_error (kbest_rss_seq 2 (-1) ex_ccol) 1 = Some x /\ x == 9 - 5) /\
+  NoDup [7%Z; 3%Z] /\ (length [7%Z; 3%Z] <= 2)%nat /\ kbest_hashes 2 ex_ccol 2 = [7%Z; 3%Z] /\ kbest_pred 2 ex_ccol 2 5%Z = [].
+Proof.
+  split; [repeat constructor|]. split; [eexists; split; vm_compute; reflexivity|]. split; [repeat constructor; cbn; intuition congruence|].
+  split; [cbn; lia|]. split; vm_compute; reflexivity.
+Qed.
+Example C10_nonvacuous_kbest_order : kbest_sorted 1 [(Some 4%Z, [1]); (Some 2%Z, [1]); (Some 9%Z, [2])] = [(- (4), 9%Z); (- (1), 2%Z); (- (1), 4%Z)].
+Proof. vm_compute. reflexivity. Qed.
+Example C10_nonvacuous_ksplit : (0 < 2)%nat /\ keys_of (present ex_ccol) <> [] /\ length (ksplit_trials 2 ex_ccol) = 3%nat /\
+  (exists s, ksplit_fit 2 (1 # 1000) [ex_ccol] = Some s /\ s == 4) /\ kinv (ksplit_init 2 ex_ccol) /\ (2 <= length (fst (ksplit_init 2 ex_ccol)))%nat /\
+  map snd (ksplit_trials 2 ex_ccol) = [[0; 1; 2]; [0; 1; 0]; [0; 0; 0]]%nat.
+Proof.
+  split; [repeat constructor|]. split; [vm_compute; discriminate|]. split; [vm_compute; reflexivity|].
+  split; [eexists; split; vm_compute; reflexivity|]. split; [apply ksplit_init_inv; repeat constructor|]. split; vm_compute; [lia | reflexivity].
+Qed.
+Example C10_nonvacuous_tree : tree_wf (match ex_tree with WTree n _ => n | _ => [] end) 4 = true /\
+  group ex_tree [FNum 1; FMiss] = Some 2%Z /\ walk_from (match ex_tree with WTree n _ => n | _ => [] end) 4 [FNum 1; FMiss] = Some 2%Z /\
+  tree_wf [mknode 0 0 0 0; mknode 0 0 0 1] 2 = true /\ tree_wf [mknode 0 0 2 (-1); mknode 0 0 0 (-1); mknode 0 0 0 0; mknode 0 0 0 1] 2 = false /\
+  (0 <= 4)%Z /\ Z.even 4 = true /\ (4 + 1 < nlen (match ex_tree with WTree n _ => n | _ => [] end))%Z.
+Proof. repeat split; vm_compute; try reflexivity; discriminate. Qed.
+Example C10_nonvacuous_criterion : (0 < 10)%Z /\ (0 < 1)%R /\ (1 <= 2)%R /\ (1 < 2)%R /\ In 1%R [1%R; 2%R] /\
+  src_c10_aic 3 10 5 2 = 36%Z /\ src_c10_bic 3 10 5 2 = 56%Z /\ src_c10_aicc 36 3 10 = 40%Z /\ src_c10_k_stump 3 = 7%Z /\
+  src_c10_n_hinge_left 4 6 1 = 5%Z.
+Proof. repeat split; try reflexivity; try lia; try lra. now left. Qed.
